@@ -458,14 +458,17 @@ def get_phase_blocks(
             stats.add_unphased()
             continue
 
-        blocks[phase.block_id].add(variant, phase)
+        # A phased genotype whose PS value is missing belongs to phase set 0,
+        # as if the PS key was absent
+        block_id = phase.block_id if phase.block_id is not None else 0
+        blocks[block_id].add(variant, phase)
         if gtfwriter:
             if prev_block.id is None:
-                prev_block = GtfBlock(variant.position, variant.position + 1, phase.block_id)
+                prev_block = GtfBlock(variant.position, variant.position + 1, block_id)
             else:
-                if prev_block.id != phase.block_id:
+                if prev_block.id != block_id:
                     gtfwriter.write(chromosome, prev_block.start, prev_block.end, prev_block.id)
-                    prev_block = GtfBlock(variant.position, variant.position + 1, phase.block_id)
+                    prev_block = GtfBlock(variant.position, variant.position + 1, block_id)
 
                 prev_block.add(variant)
 
